@@ -113,12 +113,18 @@ def run(ctx, crate):
         if not w.ok:
             continue
         early = []
+        whole = False
         for lp in O.loops_of_body(w.body):
             if "ReadDir" in lp.self_ty:
                 normal, extra = lp.exits()
                 early += [w.body.blocks[x]["tloc"]["line"] for (x, t) in extra]
-        obs.append(Ob("R16.loops", w.path, "every entry of the directory is considered (the listing loop runs to exhaustion)", not early,
-                      found=("early exit at line(s) %s" % sorted(set(early))) if early else "exhaustion only"))
+                it = lp.iterable
+                if it[0] == "enumerate":
+                    it = it[1]
+                whole = bool(w.read_dir) and T.strip_unwrap(it) == w.read_dir[0].result and lp.self_ty in ("std::iter::Enumerate<std::fs::ReadDir>", "std::fs::ReadDir")
+        obs.append(Ob("R16.loops", w.path, "every entry of the directory is considered (the whole listing, to exhaustion)", not early and whole,
+                      expected="for entry in read_dir(dir) (optionally enumerated), no skip / take / filter, no early exit",
+                      found=("early exit at line(s) %s" % sorted(set(early))) if early else ("whole listing" if whole else "the listing is adapted before iteration")))
     vals = list(summaries.values())
     if len(vals) == 3:
         same = all(v == vals[0] for v in vals)
